@@ -40,40 +40,40 @@ theorem mapMOpt_id_eq {α : Type} :
 /-! ### the invariant -/
 
 /-- what is known about an open `<Mesh>` frame -/
-def meshOk (sh : Shape) (dim : Nat) (sizes : List Nat) (v : Option (List (List Rat)))
+def meshOk (sh : Shape) (dim wdim : Nat) (sizes : List Nat) (v : Option (List (List Rat)))
     (t : List (Option (List (List Nat)))) : Prop :=
   sizes.length = dim + 1 ∧ t.length = dim ∧
-  (∀ vs, v = some vs → vs.length = sizes.getD 0 0 ∧ ∀ r ∈ vs, r.length = dim) ∧
+  (∀ vs, v = some vs → vs.length = sizes.getD 0 0 ∧ ∀ r ∈ vs, r.length = wdim) ∧
   (∀ i ts, t[i]? = some (some ts) →
     tuplesOk (nverts sh (i + 1)) (sizes.getD 0 0) (sizes.getD (i + 1) 0) ts = true)
 
 /-- what is known about a frame sitting directly above a `<Mesh>` frame with entity counts `sizes` -/
-def childOk (sh : Shape) (dim : Nat) (sizes : List Nat) : Frame → Prop
+def childOk (sh : Shape) (dim wdim : Nat) (sizes : List Nat) : Frame → Prop
   | Frame.verts count acc =>
-    count = sizes.getD 0 0 ∧ acc.length ≤ count ∧ ∀ r ∈ acc, r.length = dim
+    count = sizes.getD 0 0 ∧ acc.length ≤ count ∧ ∀ r ∈ acc, r.length = wdim
   | Frame.topo d numIdx bound count acc =>
     1 ≤ d ∧ d ≤ dim ∧ numIdx = nverts sh d ∧ bound = sizes.getD 0 0 ∧ count = sizes.getD d 0 ∧
     acc.length ≤ count ∧ ∀ t ∈ acc, t.length = numIdx ∧ ∀ x ∈ t, x < bound
   | _ => True
 
-def frameOk (sh : Shape) (dim : Nat) : Frame → Prop
-  | Frame.mesh sizes v t => meshOk sh dim sizes v t
+def frameOk (sh : Shape) (dim wdim : Nat) : Frame → Prop
+  | Frame.mesh sizes v t => meshOk sh dim wdim sizes v t
   | _ => True
 
-def aboveOk (sh : Shape) (dim : Nat) (f : Frame) : List Frame → Prop
-  | Frame.mesh sizes _ _ :: _ => childOk sh dim sizes f
+def aboveOk (sh : Shape) (dim wdim : Nat) (f : Frame) : List Frame → Prop
+  | Frame.mesh sizes _ _ :: _ => childOk sh dim wdim sizes f
   | _ => True
 
-def stackInv (sh : Shape) (dim : Nat) : List Frame → Prop
+def stackInv (sh : Shape) (dim wdim : Nat) : List Frame → Prop
   | [] => True
-  | f :: rest => frameOk sh dim f ∧ aboveOk sh dim f rest ∧ stackInv sh dim rest
+  | f :: rest => frameOk sh dim wdim f ∧ aboveOk sh dim wdim f rest ∧ stackInv sh dim wdim rest
 
-/-- the parser-state invariant: shape and dimension are fixed, a stored root mesh is well formed, and every
+/-- the parser-state invariant: shape, shape dimension and world dimension are fixed (also in the node), a stored root mesh is well formed, and every
     open `<Mesh>` frame (with its child on top) is consistent with its declared counts -/
-def Inv (sh : Shape) (dim : Nat) (st : St) : Prop :=
-  st.shape = sh ∧ st.dim = dim ∧
-  (∀ m, st.node.mesh = some m → m.wf sh dim = true) ∧
-  stackInv sh dim st.stack
+def Inv (sh : Shape) (dim wdim : Nat) (st : St) : Prop :=
+  st.shape = sh ∧ st.dim = dim ∧ st.wdim = wdim ∧ st.node.wdim = wdim ∧
+  (∀ m, st.node.mesh = some m → m.wf sh dim wdim = true) ∧
+  stackInv sh dim wdim st.stack
 
 theorem tuplesOk_iff (numIdx bound count : Nat) (ts : List (List Nat)) :
     tuplesOk numIdx bound count ts = true ↔
@@ -81,9 +81,9 @@ theorem tuplesOk_iff (numIdx bound count : Nat) (ts : List (List Nat)) :
   simp [tuplesOk]
 
 /-- a completely filled mesh frame yields a well-formed mesh -/
-theorem meshOk_wf (sh : Shape) (dim : Nat) (sizes : List Nat) (vs : List (List Rat))
-    (ts : List (List (List Nat))) (h : meshOk sh dim sizes (some vs) (ts.map some)) :
-    Mesh.wf sh dim { sizes := sizes, verts := vs, topo := ts } = true := by
+theorem meshOk_wf (sh : Shape) (dim wdim : Nat) (sizes : List Nat) (vs : List (List Rat))
+    (ts : List (List (List Nat))) (h : meshOk sh dim wdim sizes (some vs) (ts.map some)) :
+    Mesh.wf sh dim wdim { sizes := sizes, verts := vs, topo := ts } = true := by
   obtain ⟨h1, h2, h3, h4⟩ := h
   obtain ⟨h3a, h3b⟩ := h3 vs rfl
   simp only [List.length_map] at h2
@@ -97,10 +97,10 @@ theorem meshOk_wf (sh : Shape) (dim : Nat) (sizes : List Nat) (vs : List (List R
 /-! ### `contentM` -/
 
 /-- the top frame may be replaced by any frame that is consistent with what lies below it -/
-theorem stackInv_replace {sh : Shape} {dim : Nat} {f f' : Frame} {rest : List Frame}
-    (h : stackInv sh dim (f :: rest)) (h1 : frameOk sh dim f')
-    (h2 : ∀ sizes v t tl, rest = Frame.mesh sizes v t :: tl → childOk sh dim sizes f → childOk sh dim sizes f') :
-    stackInv sh dim (f' :: rest) := by
+theorem stackInv_replace {sh : Shape} {dim wdim : Nat} {f f' : Frame} {rest : List Frame}
+    (h : stackInv sh dim wdim (f :: rest)) (h1 : frameOk sh dim wdim f')
+    (h2 : ∀ sizes v t tl, rest = Frame.mesh sizes v t :: tl → childOk sh dim wdim sizes f → childOk sh dim wdim sizes f') :
+    stackInv sh dim wdim (f' :: rest) := by
   obtain ⟨_, ha, hr⟩ := h
   refine ⟨h1, ?_, hr⟩
   cases rest with
@@ -110,10 +110,10 @@ theorem stackInv_replace {sh : Shape} {dim : Nat} {f f' : Frame} {rest : List Fr
     exact h2 _ _ _ _ rfl ha
 
 /-- pushing a frame -/
-theorem stackInv_push {sh : Shape} {dim : Nat} {f : Frame} {stack : List Frame}
-    (h : stackInv sh dim stack) (h1 : frameOk sh dim f)
-    (h2 : ∀ sizes v t tl, stack = Frame.mesh sizes v t :: tl → childOk sh dim sizes f) :
-    stackInv sh dim (f :: stack) := by
+theorem stackInv_push {sh : Shape} {dim wdim : Nat} {f : Frame} {stack : List Frame}
+    (h : stackInv sh dim wdim stack) (h1 : frameOk sh dim wdim f)
+    (h2 : ∀ sizes v t tl, stack = Frame.mesh sizes v t :: tl → childOk sh dim wdim sizes f) :
+    stackInv sh dim wdim (f :: stack) := by
   refine ⟨h1, ?_, h⟩
   cases stack with
   | nil => trivial
@@ -121,17 +121,17 @@ theorem stackInv_push {sh : Shape} {dim : Nat} {f : Frame} {stack : List Frame}
     cases g <;> try trivial
     exact h2 _ _ _ _ rfl
 
-theorem stackInv_tail {sh : Shape} {dim : Nat} {f : Frame} {rest : List Frame}
-    (h : stackInv sh dim (f :: rest)) : stackInv sh dim rest := h.2.2
+theorem stackInv_tail {sh : Shape} {dim wdim : Nat} {f : Frame} {rest : List Frame}
+    (h : stackInv sh dim wdim (f :: rest)) : stackInv sh dim wdim rest := h.2.2
 
-/-- step lemma: a content line on a `<Vertices>` frame appends one row of `dim` coordinates and never
+/-- step lemma: a content line on a `<Vertices>` frame appends one row of `st.wdim` coordinates and never
     exceeds the declared count -/
 theorem contentM_verts {st st' : St} {line : Nat} {s : Str} {count : Nat} {acc : List (List Rat)}
     {rest : List Frame} (hs : st.stack = Frame.verts count acc :: rest)
     (h : contentM st line s = .ok st') :
-    ∃ v : List Rat, v.length = st.dim ∧ acc.length + 1 ≤ count ∧
+    ∃ v : List Rat, v.length = st.wdim ∧ acc.length + 1 ≤ count ∧
       st' = { st with stack := Frame.verts count (v :: acc) :: rest } := by
-  obtain ⟨shape, d, stack, node, links, deduct, unm⟩ := st
+  obtain ⟨shape, d, wd, stack, node, links, deduct, unm⟩ := st
   simp only at hs
   subst hs
   simp only [contentM] at h
@@ -146,7 +146,7 @@ theorem contentM_verts {st st' : St} {line : Nat} {s : Str} {count : Nat} {acc :
         refine ⟨v, ?_, by omega, h.symm⟩
         have := mapMOpt_length _ _ _ hv
         simp at h2
-        show v.length = d
+        show v.length = wd
         omega
 
 /-- step lemma: a content line on a `<Topology>` frame only ever appends a tuple of the right length whose
@@ -157,7 +157,7 @@ theorem contentM_topo {st st' : St} {line : Nat} {s : Str} {d numIdx bound count
     (h : contentM st line s = .ok st') :
     ∃ v : List Nat, v.length = numIdx ∧ (∀ x ∈ v, x < bound) ∧ acc.length + 1 ≤ count ∧
       st' = { st with stack := Frame.topo d numIdx bound count (v :: acc) :: rest } := by
-  obtain ⟨shape, dd, stack, node, links, deduct, unm⟩ := st
+  obtain ⟨shape, dd, wd, stack, node, links, deduct, unm⟩ := st
   simp only at hs
   subst hs
   simp only [contentM] at h
@@ -179,17 +179,17 @@ theorem contentM_topo {st st' : St} {line : Nat} {s : Str} {d numIdx bound count
             simp at h3
             exact h3 x hx
 
-theorem contentM_inv {sh : Shape} {dim : Nat} {st st' : St} {line : Nat} {s : Str}
-    (hI : Inv sh dim st) (h : contentM st line s = .ok st') : Inv sh dim st' := by
-  obtain ⟨shape, d, stack, node, links, deduct, unm⟩ := st
-  obtain ⟨h1, h2, h3, h4⟩ := hI
-  simp only at h1 h2 h3 h4
-  subst h1 h2
+theorem contentM_inv {sh : Shape} {dim wdim : Nat} {st st' : St} {line : Nat} {s : Str}
+    (hI : Inv sh dim wdim st) (h : contentM st line s = .ok st') : Inv sh dim wdim st' := by
+  obtain ⟨shape, d, wd, stack, node, links, deduct, unm⟩ := st
+  obtain ⟨h1, h2, h2w, hw, h3, h4⟩ := hI
+  simp only at h1 h2 h2w hw h3 h4
+  subst h1 h2 h2w
   cases stack with
   | nil => simp [contentM, gErr] at h
   | cons f rest =>
     cases f with
-    | dummy => simp [contentM] at h; subst h; exact ⟨rfl, rfl, h3, h4⟩
+    | dummy => simp [contentM] at h; subst h; exact ⟨rfl, rfl, rfl, hw, h3, h4⟩
     | root => simp [contentM, gErr] at h
     | mesh _ _ _ => simp [contentM, gErr] at h
     | part _ => simp [contentM, gErr] at h
@@ -203,17 +203,17 @@ theorem contentM_inv {sh : Shape} {dim : Nat} {st st' : St} {line : Nat} {s : St
       all_goals first
         | (simp [cErr] at h; done)
         | (simp only [Except.ok.injEq] at h; subst h
-           exact ⟨rfl, rfl, h3, stackInv_replace h4 trivial (fun _ _ _ _ _ _ => trivial)⟩)
+           exact ⟨rfl, rfl, rfl, hw, h3, stackInv_replace h4 trivial (fun _ _ _ _ _ _ => trivial)⟩)
     | bezierParams size read acc =>
       simp only [contentM] at h
       repeat' split at h
       all_goals first
         | (simp [cErr] at h; done)
         | (simp only [Except.ok.injEq] at h; subst h
-           exact ⟨rfl, rfl, h3, stackInv_replace h4 trivial (fun _ _ _ _ _ _ => trivial)⟩)
+           exact ⟨rfl, rfl, rfl, hw, h3, stackInv_replace h4 trivial (fun _ _ _ _ _ _ => trivial)⟩)
     | verts count acc =>
       obtain ⟨v, hv, hc, rfl⟩ := contentM_verts rfl h
-      refine ⟨rfl, rfl, h3, stackInv_replace h4 trivial ?_⟩
+      refine ⟨rfl, rfl, rfl, hw, h3, stackInv_replace h4 trivial ?_⟩
       intro sizes _ _ _ _ hc'
       obtain ⟨a, b, c⟩ := hc'
       refine ⟨a, by simp only [List.length_cons]; omega, ?_⟩
@@ -224,7 +224,7 @@ theorem contentM_inv {sh : Shape} {dim : Nat} {st st' : St} {line : Nat} {s : St
       · exact c r hr
     | topo dd numIdx bound count acc =>
       obtain ⟨v, hv, hb, hc, rfl⟩ := contentM_topo rfl h
-      refine ⟨rfl, rfl, h3, stackInv_replace h4 trivial ?_⟩
+      refine ⟨rfl, rfl, rfl, hw, h3, stackInv_replace h4 trivial ?_⟩
       intro sizes _ _ _ _ hc'
       obtain ⟨a1, a2, a3, a4, a5, a6, a7⟩ := hc'
       refine ⟨a1, a2, a3, a4, a5, by simp only [List.length_cons]; omega, ?_⟩
@@ -241,7 +241,7 @@ theorem contentM_inv {sh : Shape} {dim : Nat} {st st' : St} {line : Nat} {s : St
         · simp [cErr] at h
         · simp only [Except.ok.injEq] at h
           subst h
-          exact ⟨rfl, rfl, h3, stackInv_replace h4 trivial (fun _ _ _ _ _ _ => trivial)⟩
+          exact ⟨rfl, rfl, rfl, hw, h3, stackInv_replace h4 trivial (fun _ _ _ _ _ _ => trivial)⟩
     | attr name dd count acc =>
       simp only [contentM] at h
       split at h
@@ -252,7 +252,7 @@ theorem contentM_inv {sh : Shape} {dim : Nat} {st st' : St} {line : Nat} {s : St
           · simp [cErr] at h
           · simp only [Except.ok.injEq] at h
             subst h
-            exact ⟨rfl, rfl, h3, stackInv_replace h4 trivial (fun _ _ _ _ _ _ => trivial)⟩
+            exact ⟨rfl, rfl, rfl, hw, h3, stackInv_replace h4 trivial (fun _ _ _ _ _ _ => trivial)⟩
     | patch rank size ne read elems =>
       simp only [contentM] at h
       split at h
@@ -263,7 +263,7 @@ theorem contentM_inv {sh : Shape} {dim : Nat} {st st' : St} {line : Nat} {s : St
           · simp [cErr] at h
           · simp only [Except.ok.injEq] at h
             subst h
-            exact ⟨rfl, rfl, h3, stackInv_replace h4 trivial (fun _ _ _ _ _ _ => trivial)⟩
+            exact ⟨rfl, rfl, rfl, hw, h3, stackInv_replace h4 trivial (fun _ _ _ _ _ _ => trivial)⟩
 
 /-! ### `closeTop` -/
 
@@ -275,7 +275,7 @@ theorem closeTop_verts {st st' : St} {line : Nat} {count : Nat} {acc : List (Lis
     (h : closeTop st line = .ok st') :
     count ≤ acc.length ∧
       st' = { st with stack := Frame.mesh sizes (some acc.reverse) topo :: rest } := by
-  obtain ⟨shape, d, stack, node, links, deduct, unm⟩ := st
+  obtain ⟨shape, d, wd, stack, node, links, deduct, unm⟩ := st
   simp only at hs
   subst hs
   simp only [closeTop] at h
@@ -292,7 +292,7 @@ theorem closeTop_topo {st st' : St} {line : Nat} {d numIdx bound count : Nat} {a
     (h : closeTop st line = .ok st') :
     count ≤ acc.length ∧
       st' = { st with stack := Frame.mesh sizes v (topo.set (d - 1) (some acc.reverse)) :: rest } := by
-  obtain ⟨shape, dd, stack, node, links, deduct, unm⟩ := st
+  obtain ⟨shape, dd, wd, stack, node, links, deduct, unm⟩ := st
   simp only at hs
   subst hs
   simp only [closeTop] at h
@@ -301,23 +301,23 @@ theorem closeTop_topo {st st' : St} {line : Nat} {d numIdx bound count : Nat} {a
   · simp only [Except.ok.injEq] at h
     exact ⟨by omega, h.symm⟩
 
-theorem closeTop_inv {sh : Shape} {dim : Nat} {st st' : St} {line : Nat}
-    (hI : Inv sh dim st) (h : closeTop st line = .ok st') : Inv sh dim st' := by
-  obtain ⟨shape, d, stack, node, links, deduct, unm⟩ := st
-  obtain ⟨h1, h2, h3, h4⟩ := hI
-  simp only at h1 h2 h3 h4
-  subst h1 h2
+theorem closeTop_inv {sh : Shape} {dim wdim : Nat} {st st' : St} {line : Nat}
+    (hI : Inv sh dim wdim st) (h : closeTop st line = .ok st') : Inv sh dim wdim st' := by
+  obtain ⟨shape, d, wd, stack, node, links, deduct, unm⟩ := st
+  obtain ⟨h1, h2, h2w, hw, h3, h4⟩ := hI
+  simp only at h1 h2 h2w hw h3 h4
+  subst h1 h2 h2w
   cases stack with
   | nil => simp [closeTop, gErr] at h
   | cons f rest =>
     cases f with
-    | root => simp [closeTop] at h; subst h; exact ⟨rfl, rfl, h3, stackInv_tail h4⟩
-    | dummy => simp [closeTop] at h; subst h; exact ⟨rfl, rfl, h3, stackInv_tail h4⟩
-    | chartItem => simp [closeTop] at h; subst h; exact ⟨rfl, rfl, h3, stackInv_tail h4⟩
+    | root => simp [closeTop] at h; subst h; exact ⟨rfl, rfl, rfl, hw, h3, stackInv_tail h4⟩
+    | dummy => simp [closeTop] at h; subst h; exact ⟨rfl, rfl, rfl, hw, h3, stackInv_tail h4⟩
+    | chartItem => simp [closeTop] at h; subst h; exact ⟨rfl, rfl, rfl, hw, h3, stackInv_tail h4⟩
     | chart name c =>
       cases c with
       | none => simp [closeTop, gErr] at h
-      | some ch => simp [closeTop] at h; subst h; exact ⟨rfl, rfl, h3, stackInv_tail h4⟩
+      | some ch => simp [closeTop] at h; subst h; exact ⟨rfl, rfl, rfl, hw, h3, stackInv_tail h4⟩
     | bezier sz cl o segs params =>
       cases rest with
       | nil => simp [closeTop, gErr] at h
@@ -326,7 +326,7 @@ theorem closeTop_inv {sh : Shape} {dim : Nat} {st st' : St} {line : Nat}
         | chart name c =>
           simp only [closeTop, Except.ok.injEq] at h
           subst h
-          exact ⟨rfl, rfl, h3, stackInv_replace (stackInv_tail h4) trivial (fun _ _ _ _ _ _ => trivial)⟩
+          exact ⟨rfl, rfl, rfl, hw, h3, stackInv_replace (stackInv_tail h4) trivial (fun _ _ _ _ _ _ => trivial)⟩
         | _ => simp [closeTop, gErr] at h
     | bezierPoints size read acc =>
       cases rest with
@@ -339,7 +339,7 @@ theorem closeTop_inv {sh : Shape} {dim : Nat} {st st' : St} {line : Nat}
           · simp [gErr] at h
           · simp only [Except.ok.injEq] at h
             subst h
-            exact ⟨rfl, rfl, h3, stackInv_replace (stackInv_tail h4) trivial (fun _ _ _ _ _ _ => trivial)⟩
+            exact ⟨rfl, rfl, rfl, hw, h3, stackInv_replace (stackInv_tail h4) trivial (fun _ _ _ _ _ _ => trivial)⟩
         | _ => simp [closeTop, gErr] at h
     | bezierParams size read acc =>
       cases rest with
@@ -352,7 +352,7 @@ theorem closeTop_inv {sh : Shape} {dim : Nat} {st st' : St} {line : Nat}
           · simp [gErr] at h
           · simp only [Except.ok.injEq] at h
             subst h
-            exact ⟨rfl, rfl, h3, stackInv_replace (stackInv_tail h4) trivial (fun _ _ _ _ _ _ => trivial)⟩
+            exact ⟨rfl, rfl, rfl, hw, h3, stackInv_replace (stackInv_tail h4) trivial (fun _ _ _ _ _ _ => trivial)⟩
         | _ => simp [closeTop, gErr] at h
     | mesh sizes v topo =>
       simp only [closeTop] at h
@@ -363,13 +363,13 @@ theorem closeTop_inv {sh : Shape} {dim : Nat} {st st' : St} {line : Nat}
         · rename_i vs _ ts hts
           simp only [Except.ok.injEq] at h
           subst h
-          refine ⟨rfl, rfl, ?_, stackInv_tail h4⟩
+          refine ⟨rfl, rfl, rfl, hw, ?_, stackInv_tail h4⟩
           intro m hm
           simp only [Option.some.injEq] at hm
           subst hm
           have := mapMOpt_id_eq _ _ hts
           subst this
-          exact meshOk_wf _ _ _ _ _ h4.1
+          exact meshOk_wf _ _ _ _ _ _ h4.1
     | verts count acc =>
       cases rest with
       | nil => simp [closeTop, gErr] at h
@@ -378,7 +378,7 @@ theorem closeTop_inv {sh : Shape} {dim : Nat} {st st' : St} {line : Nat}
         | mesh sizes v topo =>
           obtain ⟨hc, rfl⟩ := closeTop_verts rfl h
           obtain ⟨_, ha, ht⟩ := h4
-          refine ⟨rfl, rfl, h3, stackInv_replace ht ?_ (fun _ _ _ _ _ _ => trivial)⟩
+          refine ⟨rfl, rfl, rfl, hw, h3, stackInv_replace ht ?_ (fun _ _ _ _ _ _ => trivial)⟩
           obtain ⟨a1, a2, a3⟩ := ha
           obtain ⟨m1, m2, m3, m4⟩ := ht.1
           refine ⟨m1, m2, ?_, m4⟩
@@ -397,7 +397,7 @@ theorem closeTop_inv {sh : Shape} {dim : Nat} {st st' : St} {line : Nat}
         | mesh sizes v topo =>
           obtain ⟨hc, rfl⟩ := closeTop_topo rfl h
           obtain ⟨_, ha, ht⟩ := h4
-          refine ⟨rfl, rfl, h3, stackInv_replace ht ?_ (fun _ _ _ _ _ _ => trivial)⟩
+          refine ⟨rfl, rfl, rfl, hw, h3, stackInv_replace ht ?_ (fun _ _ _ _ _ _ => trivial)⟩
           obtain ⟨a1, a2, a3, a4, a5, a6, a7⟩ := ha
           obtain ⟨m1, m2, m3, m4⟩ := ht.1
           refine ⟨m1, by simpa using m2, m3, ?_⟩
@@ -423,7 +423,7 @@ theorem closeTop_inv {sh : Shape} {dim : Nat} {st st' : St} {line : Nat}
           · simp [gErr] at h
           · simp only [Except.ok.injEq] at h
             subst h
-            exact ⟨rfl, rfl, h3, stackInv_replace (stackInv_tail h4) trivial (fun _ _ _ _ _ _ => trivial)⟩
+            exact ⟨rfl, rfl, rfl, hw, h3, stackInv_replace (stackInv_tail h4) trivial (fun _ _ _ _ _ _ => trivial)⟩
         | _ => simp [closeTop, gErr] at h
     | mapping dd count acc =>
       cases rest with
@@ -436,7 +436,7 @@ theorem closeTop_inv {sh : Shape} {dim : Nat} {st st' : St} {line : Nat}
           · simp [gErr] at h
           · simp only [Except.ok.injEq] at h
             subst h
-            exact ⟨rfl, rfl, h3, stackInv_replace (stackInv_tail h4) trivial (fun _ _ _ _ _ _ => trivial)⟩
+            exact ⟨rfl, rfl, rfl, hw, h3, stackInv_replace (stackInv_tail h4) trivial (fun _ _ _ _ _ _ => trivial)⟩
         | _ => simp [closeTop, gErr] at h
     | attr name dd count acc =>
       cases rest with
@@ -449,7 +449,7 @@ theorem closeTop_inv {sh : Shape} {dim : Nat} {st st' : St} {line : Nat}
           · simp [gErr] at h
           · simp only [Except.ok.injEq] at h
             subst h
-            exact ⟨rfl, rfl, h3, stackInv_replace (stackInv_tail h4) trivial (fun _ _ _ _ _ _ => trivial)⟩
+            exact ⟨rfl, rfl, rfl, hw, h3, stackInv_replace (stackInv_tail h4) trivial (fun _ _ _ _ _ _ => trivial)⟩
         | _ => simp [closeTop, gErr] at h
     | patch rank size ne read elems =>
       cases rest with
@@ -462,7 +462,7 @@ theorem closeTop_inv {sh : Shape} {dim : Nat} {st st' : St} {line : Nat}
           · simp [gErr] at h
           · simp only [Except.ok.injEq] at h
             subst h
-            exact ⟨rfl, rfl, h3, stackInv_replace (stackInv_tail h4) trivial (fun _ _ _ _ _ _ => trivial)⟩
+            exact ⟨rfl, rfl, rfl, hw, h3, stackInv_replace (stackInv_tail h4) trivial (fun _ _ _ _ _ _ => trivial)⟩
         | _ => simp [closeTop, gErr] at h
     | part p =>
       simp only [closeTop] at h
@@ -472,7 +472,7 @@ theorem closeTop_inv {sh : Shape} {dim : Nat} {st st' : St} {line : Nat}
         · simp [gErr] at h
         · simp only [Except.ok.injEq] at h
           subst h
-          exact ⟨rfl, rfl, h3, stackInv_tail h4⟩
+          exact ⟨rfl, rfl, rfl, hw, h3, stackInv_tail h4⟩
     | partition name prio level nr ne patches hv =>
       simp only [closeTop] at h
       split at h
@@ -481,7 +481,7 @@ theorem closeTop_inv {sh : Shape} {dim : Nat} {st st' : St} {line : Nat}
         · simp [gErr] at h
         · simp only [Except.ok.injEq] at h
           subst h
-          exact ⟨rfl, rfl, h3, stackInv_tail h4⟩
+          exact ⟨rfl, rfl, rfl, hw, h3, stackInv_tail h4⟩
 
 /-! ### `openM` -/
 
@@ -528,8 +528,8 @@ theorem partitionCreate_ok {line : Nat} {m : Markup} {f : Frame}
     simp only [Except.ok.injEq] at h
     exact ⟨_, _, _, _, _, _, _, h.symm⟩
 
-theorem meshOk_init {sh : Shape} {dim : Nat} {sizes : List Nat} (h : sizes.length = dim + 1) :
-    meshOk sh dim sizes none (List.replicate dim none) := by
+theorem meshOk_init {sh : Shape} {dim wdim : Nat} {sizes : List Nat} (h : sizes.length = dim + 1) :
+    meshOk sh dim wdim sizes none (List.replicate dim none) := by
   refine ⟨h, List.length_replicate, ?_, ?_⟩
   · intro vs hvs; cases hvs
   · intro i ts hi
@@ -538,51 +538,51 @@ theorem meshOk_init {sh : Shape} {dim : Nat} {sizes : List Nat} (h : sizes.lengt
     · simp at hi
     · cases hi
 
-theorem push_inv {sh : Shape} {dim : Nat} {st st' : St} {line : Nat} {closed : Bool}
-    (hI : Inv sh dim st)
-    (h : (if closed = true then closeTop st line else .ok st) = .ok st') : Inv sh dim st' := by
+theorem push_inv {sh : Shape} {dim wdim : Nat} {st st' : St} {line : Nat} {closed : Bool}
+    (hI : Inv sh dim wdim st)
+    (h : (if closed = true then closeTop st line else .ok st) = .ok st') : Inv sh dim wdim st' := by
   split at h
   · exact closeTop_inv hI h
   · simp only [Except.ok.injEq] at h
     subst h
     exact hI
 
-theorem openM_inv {sh : Shape} {dim : Nat} {st st' : St} {line : Nat} {m : Markup}
-    (hI : Inv sh dim st) (h : openM st line m = .ok st') : Inv sh dim st' := by
-  obtain ⟨shape, d, stack, node, links, deduct, unm⟩ := st
-  obtain ⟨h1, h2, h3, h4⟩ := hI
-  simp only at h1 h2 h3 h4
-  subst h1 h2
+theorem openM_inv {sh : Shape} {dim wdim : Nat} {st st' : St} {line : Nat} {m : Markup}
+    (hI : Inv sh dim wdim st) (h : openM st line m = .ok st') : Inv sh dim wdim st' := by
+  obtain ⟨shape, d, wd, stack, node, links, deduct, unm⟩ := st
+  obtain ⟨h1, h2, h2w, hw, h3, h4⟩ := hI
+  simp only at h1 h2 h2w hw h3 h4
+  subst h1 h2 h2w
   cases stack with
   | nil => simp [openM, gErr] at h
   | cons f rest =>
     cases f with
     | dummy =>
       simp only [openM] at h
-      exact push_inv ⟨rfl, rfl, h3, stackInv_push h4 (by trivial) (fun _ _ _ _ _ => by trivial)⟩ h
+      exact push_inv ⟨rfl, rfl, rfl, hw, h3, stackInv_push h4 (by trivial) (fun _ _ _ _ _ => by trivial)⟩ h
     | root =>
       simp only [openM] at h
       repeat' split at h
       all_goals first
         | (simp [gErr, cErr] at h; done)
-        | exact closeTop_inv ⟨rfl, rfl, h3, stackInv_push h4 (by trivial) (fun _ _ _ _ _ => by trivial)⟩ h
+        | exact closeTop_inv ⟨rfl, rfl, rfl, hw, h3, stackInv_push h4 (by trivial) (fun _ _ _ _ _ => by trivial)⟩ h
         | (simp only [Except.ok.injEq] at h; subst h
-           exact ⟨rfl, rfl, h3, stackInv_push h4 (by trivial) (fun _ _ _ _ _ => by trivial)⟩)
+           exact ⟨rfl, rfl, rfl, hw, h3, stackInv_push h4 (by trivial) (fun _ _ _ _ _ => by trivial)⟩)
         | (obtain ⟨sizes, hsz, rfl⟩ := meshCreate_ok (by assumption)
            simp only [Except.ok.injEq] at h; subst h
-           exact ⟨rfl, rfl, h3, stackInv_push h4 (meshOk_init hsz) (fun _ _ _ _ hh => by cases hh)⟩)
+           exact ⟨rfl, rfl, rfl, hw, h3, stackInv_push h4 (meshOk_init hsz) (fun _ _ _ _ hh => by cases hh)⟩)
         | (obtain ⟨_, _, _, _, _, _, _, rfl⟩ := partitionCreate_ok (by assumption)
-           exact closeTop_inv ⟨rfl, rfl, h3, stackInv_push h4 (by trivial) (fun _ _ _ _ _ => by trivial)⟩ h)
+           exact closeTop_inv ⟨rfl, rfl, rfl, hw, h3, stackInv_push h4 (by trivial) (fun _ _ _ _ _ => by trivial)⟩ h)
         | (obtain ⟨_, _, _, _, _, _, _, rfl⟩ := partitionCreate_ok (by assumption)
            simp only [Except.ok.injEq] at h; subst h
-           exact ⟨rfl, rfl, h3, stackInv_push h4 (by trivial) (fun _ _ _ _ _ => by trivial)⟩)
+           exact ⟨rfl, rfl, rfl, hw, h3, stackInv_push h4 (by trivial) (fun _ _ _ _ _ => by trivial)⟩)
     | mesh sizes v topo =>
       simp only [openM] at h
       repeat' split at h
       all_goals first
         | (simp [gErr] at h; done)
         | (simp only [Except.ok.injEq] at h; subst h
-           exact ⟨rfl, rfl, h3, stackInv_push h4 (by trivial)
+           exact ⟨rfl, rfl, rfl, hw, h3, stackInv_push h4 (by trivial)
              (fun _ _ _ _ hh => by cases hh; exact ⟨rfl, Nat.zero_le _, fun _ hr => by cases hr⟩)⟩)
         | (obtain ⟨hc, _⟩ := topoCreate_ok (by assumption)
            have hc' : m.closed = true := by assumption
@@ -590,23 +590,23 @@ theorem openM_inv {sh : Shape} {dim : Nat} {st st' : St} {line : Nat} {m : Marku
         | (obtain ⟨_, dd, hd1, hd2, rfl⟩ := topoCreate_ok (by assumption)
            have ht : topo.length = d := h4.1.2.1
            simp only [Except.ok.injEq] at h; subst h
-           exact ⟨rfl, rfl, h3, stackInv_push h4 (by trivial)
+           exact ⟨rfl, rfl, rfl, hw, h3, stackInv_push h4 (by trivial)
              (fun _ _ _ _ hh => by
                cases hh
                exact ⟨hd1, by omega, rfl, rfl, rfl, Nat.zero_le _, fun _ hr => by cases hr⟩)⟩)
     | chart name c =>
-      have hrest : stackInv shape d rest := stackInv_tail h4
+      have hrest : stackInv shape d wd rest := stackInv_tail h4
       simp only [openM] at h
       repeat' split at h
       all_goals first
         | (simp [gErr] at h; done)
-        | exact closeTop_inv ⟨rfl, rfl, h3,
+        | exact closeTop_inv ⟨rfl, rfl, rfl, hw, h3,
             stackInv_push (stackInv_push hrest (by trivial) (fun _ _ _ _ _ => by trivial))
               (by trivial) (fun _ _ _ _ hh => by cases hh)⟩ h
         | (simp only [Except.ok.injEq] at h; subst h
-           exact ⟨rfl, rfl, h3, stackInv_push hrest (by trivial) (fun _ _ _ _ _ => by trivial)⟩)
+           exact ⟨rfl, rfl, rfl, hw, h3, stackInv_push hrest (by trivial) (fun _ _ _ _ _ => by trivial)⟩)
         | (simp only [Except.ok.injEq] at h; subst h
-           exact ⟨rfl, rfl, h3,
+           exact ⟨rfl, rfl, rfl, hw, h3,
             stackInv_push (stackInv_push hrest (by trivial) (fun _ _ _ _ _ => by trivial))
               (by trivial) (fun _ _ _ _ hh => by cases hh)⟩)
     | chartItem => simp [openM, gErr] at h
@@ -617,9 +617,9 @@ theorem openM_inv {sh : Shape} {dim : Nat} {st st' : St} {line : Nat} {m : Marku
       repeat' split at h
       all_goals first
         | (simp [gErr] at h; done)
-        | exact closeTop_inv ⟨rfl, rfl, h3, stackInv_push h4 (by trivial) (fun _ _ _ _ hh => by cases hh)⟩ h
+        | exact closeTop_inv ⟨rfl, rfl, rfl, hw, h3, stackInv_push h4 (by trivial) (fun _ _ _ _ hh => by cases hh)⟩ h
         | (simp only [Except.ok.injEq] at h; subst h
-           exact ⟨rfl, rfl, h3, stackInv_push h4 (by trivial) (fun _ _ _ _ hh => by cases hh)⟩)
+           exact ⟨rfl, rfl, rfl, hw, h3, stackInv_push h4 (by trivial) (fun _ _ _ _ hh => by cases hh)⟩)
     | verts _ _ => simp [openM, gErr] at h
     | topo _ _ _ _ _ => simp [openM, gErr] at h
     | mapping _ _ _ => simp [openM, gErr] at h
@@ -630,28 +630,28 @@ theorem openM_inv {sh : Shape} {dim : Nat} {st st' : St} {line : Nat} {m : Marku
       repeat' split at h
       all_goals first
         | (simp [gErr, cErr] at h; done)
-        | exact closeTop_inv ⟨rfl, rfl, h3, stackInv_push h4 (by trivial) (fun _ _ _ _ hh => by cases hh)⟩ h
+        | exact closeTop_inv ⟨rfl, rfl, rfl, hw, h3, stackInv_push h4 (by trivial) (fun _ _ _ _ hh => by cases hh)⟩ h
         | (simp only [Except.ok.injEq] at h; subst h
-           exact ⟨rfl, rfl, h3, stackInv_push h4 (by trivial) (fun _ _ _ _ hh => by cases hh)⟩)
+           exact ⟨rfl, rfl, rfl, hw, h3, stackInv_push h4 (by trivial) (fun _ _ _ _ hh => by cases hh)⟩)
         | (obtain ⟨_, dd, hd1, hd2, rfl⟩ := topoCreate_ok (by assumption)
-           exact closeTop_inv ⟨rfl, rfl, h3, stackInv_push h4 (by trivial) (fun _ _ _ _ hh => by cases hh)⟩ h)
+           exact closeTop_inv ⟨rfl, rfl, rfl, hw, h3, stackInv_push h4 (by trivial) (fun _ _ _ _ hh => by cases hh)⟩ h)
         | (obtain ⟨_, dd, hd1, hd2, rfl⟩ := topoCreate_ok (by assumption)
            simp only [Except.ok.injEq] at h; subst h
-           exact ⟨rfl, rfl, h3, stackInv_push h4 (by trivial) (fun _ _ _ _ hh => by cases hh)⟩)
+           exact ⟨rfl, rfl, rfl, hw, h3, stackInv_push h4 (by trivial) (fun _ _ _ _ hh => by cases hh)⟩)
     | partition name prio level nr ne patches =>
       simp only [openM] at h
       repeat' split at h
       all_goals first
         | (simp [gErr, cErr] at h; done)
-        | exact closeTop_inv ⟨rfl, rfl, h3, stackInv_push h4 (by trivial) (fun _ _ _ _ hh => by cases hh)⟩ h
+        | exact closeTop_inv ⟨rfl, rfl, rfl, hw, h3, stackInv_push h4 (by trivial) (fun _ _ _ _ hh => by cases hh)⟩ h
         | (simp only [Except.ok.injEq] at h; subst h
-           exact ⟨rfl, rfl, h3, stackInv_push h4 (by trivial) (fun _ _ _ _ hh => by cases hh)⟩)
+           exact ⟨rfl, rfl, rfl, hw, h3, stackInv_push h4 (by trivial) (fun _ _ _ _ hh => by cases hh)⟩)
 
 /-! ### the scanner loop and the final theorems -/
 
-theorem scanLoop_inv {sh : Shape} {dim : Nat} (lines : List Str) :
+theorem scanLoop_inv {sh : Shape} {dim wdim : Nat} (lines : List Str) :
     ∀ (iline : Nat) (names : List Str) (st st' : St),
-      Inv sh dim st → scanLoop meshClient lines iline names st = .ok st' → Inv sh dim st' := by
+      Inv sh dim wdim st → scanLoop meshClient lines iline names st = .ok st' → Inv sh dim wdim st' := by
   induction lines with
   | nil =>
     intro iline names st st' _ h
@@ -671,11 +671,11 @@ theorem scanLoop_inv {sh : Shape} {dim : Nat} (lines : List Str) :
       | (simp only [Except.ok.injEq] at h; subst h; exact closeTop_inv hI (by assumption))
 
 /-- the initial parser state satisfies the invariant -/
-theorem Inv_init (sh : Shape) (dim : Nat) :
-    Inv sh dim { shape := sh, dim := dim, stack := [Frame.root],
-                 node := { mesh := none, parts := [], partitions := [] },
-                 links := [], deduct := [], unmodelled := false } := by
-  refine ⟨rfl, rfl, ?_, trivial, trivial, trivial⟩
+theorem Inv_init (sh : Shape) (dim wdim : Nat) :
+    Inv sh dim wdim { shape := sh, dim := dim, wdim := wdim, stack := [Frame.root],
+                      node := { mesh := none, parts := [], partitions := [], wdim := wdim },
+                      links := [], deduct := [], unmodelled := false } := by
+  refine ⟨rfl, rfl, rfl, rfl, ?_, trivial, trivial, trivial⟩
   intro _ hm
   cases hm
 
@@ -701,12 +701,35 @@ theorem resolveDeduct_fields : ∀ (ded : List Str) (n n' : Node), resolveDeduct
       · have := resolveDeduct_fields rest _ n' h; exact this
     · cases h
 
+/-- the linker's first loop keeps the world dimension of the node -/
+theorem resolveLinks_wdim : ∀ (links : List (Str × Str)) (n n' : Node), resolveLinks links n = some n' →
+    n'.wdim = n.wdim
+  | [], n, n', h => by simp [resolveLinks] at h; subst h; rfl
+  | (pn, cn) :: rest, n, n', h => by
+    simp only [resolveLinks] at h
+    split at h
+    · cases h
+    · have := resolveLinks_wdim rest _ n' h; exact this
+
+/-- the linker's last loop keeps the world dimension of the node -/
+theorem resolveDeduct_wdim : ∀ (ded : List Str) (n n' : Node), resolveDeduct ded n = some n' →
+    n'.wdim = n.wdim
+  | [], n, n', h => by simp [resolveDeduct] at h; subst h; rfl
+  | pn :: rest, n, n', h => by
+    simp only [resolveDeduct] at h
+    split at h
+    · split at h
+      · cases h
+      · have := resolveDeduct_wdim rest _ n' h; exact this
+    · cases h
+
 /-- an accepted `parseBody` run, opened up: the final scanner state and the two linker loops -/
-theorem parseBody_ok_run {sh sh' : Shape} {dim dim' : Nat} {m : Markup} {iline : Nat} {rest : List Str}
-    {n : Node} (h : parseBody sh dim m iline rest = .ok sh' dim' n) :
+theorem parseBody_ok_run {sh sh' : Shape} {dim dim' wdim : Nat} {m : Markup} {iline : Nat} {rest : List Str}
+    {n : Node} (h : parseBody sh dim wdim m iline rest = .ok sh' dim' n) :
     sh' = sh ∧ dim' = dim ∧ ∃ (st : St) (n1 : Node),
       scanLoop meshClient rest iline [m.name]
-        { shape := sh, dim := dim, stack := [Frame.root], node := { mesh := none, parts := [], partitions := [] },
+        { shape := sh, dim := dim, wdim := wdim, stack := [Frame.root],
+          node := { mesh := none, parts := [], partitions := [], wdim := wdim },
           links := [], deduct := [], unmodelled := false } = .ok st ∧
       st.unmodelled = false ∧ resolveLinks st.links st.node = some n1 ∧ mapOutOfRange n1 = false ∧
       resolveDeduct st.deduct n1 = some n := by
@@ -735,45 +758,77 @@ theorem parseBody_ok_run {sh sh' : Shape} {dim dim' : Nat} {m : Markup} {iline :
 
 /-- an accepted `parseBody` run: the final scanner state satisfies the invariant and supplies the root mesh
     (the linker loops change mesh parts only); the reported shape and dimension are the ones `parseBody` was
-    called with -/
-theorem parseBody_ok_inv {sh sh' : Shape} {dim dim' : Nat} {m : Markup} {iline : Nat} {rest : List Str}
-    {n : Node} (h : parseBody sh dim m iline rest = .ok sh' dim' n) :
-    sh' = sh ∧ dim' = dim ∧ ∃ st : St, Inv sh dim st ∧ n.mesh = st.node.mesh := by
+    called with, and the node carries the world dimension `parseBody` was called with -/
+theorem parseBody_ok_inv {sh sh' : Shape} {dim dim' wdim : Nat} {m : Markup} {iline : Nat} {rest : List Str}
+    {n : Node} (h : parseBody sh dim wdim m iline rest = .ok sh' dim' n) :
+    sh' = sh ∧ dim' = dim ∧ ∃ st : St, Inv sh dim wdim st ∧ n.mesh = st.node.mesh ∧ n.wdim = wdim := by
   obtain ⟨h1, h2, st, n1, hscan, _, hl, _, hd⟩ := parseBody_ok_run h
-  refine ⟨h1, h2, st, scanLoop_inv _ _ _ _ _ (Inv_init sh dim) hscan, ?_⟩
-  rw [(resolveDeduct_fields _ _ _ hd).1, (resolveLinks_fields _ _ _ hl).1]
+  have hI := scanLoop_inv _ _ _ _ _ (Inv_init sh dim wdim) hscan
+  refine ⟨h1, h2, st, hI, ?_, ?_⟩
+  · rw [(resolveDeduct_fields _ _ _ hd).1, (resolveLinks_fields _ _ _ hl).1]
+  · rw [resolveDeduct_wdim _ _ _ hd, resolveLinks_wdim _ _ _ hl]
+    exact hI.2.2.2.1
 
 /-- `parseBody` reports exactly the shape and dimension it was called with -/
-theorem parseBody_ok_type {sh sh' : Shape} {dim dim' : Nat} {m : Markup} {iline : Nat} {rest : List Str}
-    {n : Node} (h : parseBody sh dim m iline rest = .ok sh' dim' n) : sh' = sh ∧ dim' = dim :=
+theorem parseBody_ok_type {sh sh' : Shape} {dim dim' wdim : Nat} {m : Markup} {iline : Nat} {rest : List Str}
+    {n : Node} (h : parseBody sh dim wdim m iline rest = .ok sh' dim' n) : sh' = sh ∧ dim' = dim :=
   ⟨(parseBody_ok_inv h).1, (parseBody_ok_inv h).2.1⟩
 
-/-- parser soundness (general form): the root mesh of an accepted file has the declared counts, all vertices
-    have `dim` coordinates and all topology indices are in range -/
-theorem parseBody_mesh_wf' {sh sh' : Shape} {dim dim' : Nat} {m : Markup} {iline : Nat} {rest : List Str}
-    {n : Node} {msh : Mesh} (h : parseBody sh dim m iline rest = .ok sh' dim' n)
-    (hm : n.mesh = some msh) : msh.wf sh' dim' = true := by
-  obtain ⟨rfl, rfl, st, hI, he⟩ := parseBody_ok_inv h
-  exact hI.2.2.1 msh (he ▸ hm)
+/-- the node returned by `parseBody` carries the world dimension `parseBody` was called with -/
+theorem parseBody_ok_wdim {sh sh' : Shape} {dim dim' wdim : Nat} {m : Markup} {iline : Nat} {rest : List Str}
+    {n : Node} (h : parseBody sh dim wdim m iline rest = .ok sh' dim' n) : n.wdim = wdim := by
+  obtain ⟨_, _, _, _, _, hw⟩ := parseBody_ok_inv h
+  exact hw
 
-theorem parseBody_mesh_wf (sh : Shape) (dim : Nat) (m : Markup) (iline : Nat) (rest : List Str)
+/-- parser soundness (general form): the root mesh of an accepted file has the declared counts, all vertices
+    have `wdim` coordinates and all topology indices are in range -/
+theorem parseBody_mesh_wf' {sh sh' : Shape} {dim dim' wdim : Nat} {m : Markup} {iline : Nat} {rest : List Str}
+    {n : Node} {msh : Mesh} (h : parseBody sh dim wdim m iline rest = .ok sh' dim' n)
+    (hm : n.mesh = some msh) : msh.wf sh' dim' wdim = true := by
+  obtain ⟨rfl, rfl, st, hI, he, _⟩ := parseBody_ok_inv h
+  exact hI.2.2.2.2.1 msh (he ▸ hm)
+
+theorem parseBody_mesh_wf (sh : Shape) (dim wdim : Nat) (m : Markup) (iline : Nat) (rest : List Str)
     (n : Node) (msh : Mesh) :
-    parseBody sh dim m iline rest = .ok sh dim n → n.mesh = some msh → msh.wf sh dim = true :=
+    parseBody sh dim wdim m iline rest = .ok sh dim n → n.mesh = some msh → msh.wf sh dim wdim = true :=
   fun h hm => parseBody_mesh_wf' h hm
 
+/-- the node of an accepted file carries a world dimension for which `(sh, dim, n.wdim)` is one of the nine
+    supported mesh types -/
+theorem parseMeshFile_supported {text : Str} {sh : Shape} {dim : Nat} {n : Node}
+    (h : parseMeshFile text = .ok sh dim n) : supported sh dim n.wdim = true := by
+  unfold parseMeshFile at h
+  split at h
+  · cases h
+  · split at h
+    · cases h
+    · cases h
+    · rename_i sh0 sd wd _
+      split at h
+      · cases h
+      · rename_i hsup
+        have hsup' : supported sh0 sd wd = true := by simpa using hsup
+        obtain ⟨rfl, rfl⟩ := parseBody_ok_type h
+        rw [parseBody_ok_wdim h]
+        have hsd : (0 : Int) ≤ sd ∧ (0 : Int) ≤ wd := by
+          simp only [supported, Bool.or_eq_true, Bool.and_eq_true, beq_iff_eq] at hsup'
+          omega
+        rw [Int.toNat_of_nonneg hsd.1, Int.toNat_of_nonneg hsd.2]
+        exact hsup'
+
 theorem parseMeshFile_mesh_wf (text : Str) (sh : Shape) (dim : Nat) (n : Node) (msh : Mesh) :
-    parseMeshFile text = .ok sh dim n → n.mesh = some msh → msh.wf sh dim = true := by
+    parseMeshFile text = .ok sh dim n → n.mesh = some msh → msh.wf sh dim n.wdim = true := by
   intro h hm
   unfold parseMeshFile at h
   repeat' split at h
   all_goals first
     | (cases h; done)
-    | exact parseBody_mesh_wf' h hm
+    | (rw [parseBody_ok_wdim h]; exact parseBody_mesh_wf' h hm)
 
 /-- `Mesh.wf` spelled out as a proposition -/
-theorem Mesh.wf_iff (sh : Shape) (dim : Nat) (m : Mesh) :
-    m.wf sh dim = true ↔
-      m.sizes.length = dim + 1 ∧ m.verts.length = m.sizes.getD 0 0 ∧ (∀ v ∈ m.verts, v.length = dim) ∧
+theorem Mesh.wf_iff (sh : Shape) (dim wdim : Nat) (m : Mesh) :
+    m.wf sh dim wdim = true ↔
+      m.sizes.length = dim + 1 ∧ m.verts.length = m.sizes.getD 0 0 ∧ (∀ v ∈ m.verts, v.length = wdim) ∧
       m.topo.length = dim ∧
       ∀ i, i < dim → (m.topo.getD i []).length = m.sizes.getD (i + 1) 0 ∧
         ∀ t ∈ m.topo.getD i [], t.length = nverts sh (i + 1) ∧ ∀ x ∈ t, x < m.sizes.getD 0 0 := by
@@ -784,9 +839,17 @@ theorem Mesh.wf_iff (sh : Shape) (dim : Nat) (m : Mesh) :
 theorem parseMeshFile_indices_in_range {text : Str} {sh : Shape} {dim : Nat} {n : Node} {msh : Mesh}
     (h : parseMeshFile text = .ok sh dim n) (hm : n.mesh = some msh) :
     ∀ i, i < dim → ∀ t ∈ msh.topo.getD i [], ∀ x ∈ t, x < msh.verts.length := by
-  have hw := (Mesh.wf_iff sh dim msh).1 (parseMeshFile_mesh_wf text sh dim n msh h hm)
+  have hw := (Mesh.wf_iff sh dim n.wdim msh).1 (parseMeshFile_mesh_wf text sh dim n msh h hm)
   intro i hi t ht x hx
   rw [hw.2.1]
   exact ((hw.2.2.2.2 i hi).2 t ht).2 x hx
+
+/-- the world dimension of an accepted file: the triple is supported and every vertex of the root mesh has
+    exactly `n.wdim` coordinates -/
+theorem parseMeshFile_world_dim {text : Str} {sh : Shape} {dim : Nat} {n : Node}
+    (h : parseMeshFile text = .ok sh dim n) :
+    supported sh dim n.wdim = true ∧ (∀ m, n.mesh = some m → ∀ v ∈ m.verts, v.length = n.wdim) :=
+  ⟨parseMeshFile_supported h, fun m hm =>
+    ((Mesh.wf_iff sh dim n.wdim m).1 (parseMeshFile_mesh_wf text sh dim n m h hm)).2.2.1⟩
 
 end FeatModel.C11
